@@ -6,7 +6,7 @@ import asyncio
 import random
 import sys
 
-from xknx.devices import BinarySensor, Sensor, Switch
+from xknx.devices import BinarySensor, ExposeSensor, Sensor, Switch
 from xknx.dpt import DPTArray, DPTBinary
 from xknx.exceptions import (
     CommunicationError,
@@ -88,14 +88,16 @@ def gen_case(rng: random.Random) -> dict:
     dts = (0.0, 0.0, 0.0, 0.001, step, step - 1e-4, step + 1e-4, step / 2, 0.5, CONFIRM_TIMEOUT, 5.0)
     for _ in range(n):
         kind = rng.choices(
-            ("out", "outi", "in", "ini", "bad", "join", "restart", "burst", "con"),
-            (40, 14, 18, 3, 4, 6, 5, 6, 4),
+            ("out", "outi", "in", "ini", "bad", "join", "restart", "burst", "con", "rate"),
+            (40, 14, 18, 3, 4, 6, 5, 6, 4, 3),
         )[0]
         ev = {"dt": rng.choice(dts), "kind": kind}
         if kind in ("out", "in", "bad"):
             ev["addr"] = rng.choice(GAS)
         elif kind in ("outi", "ini"):
             ev["addr"] = rng.choice(IGAS)
+        elif kind == "rate":
+            ev["rate"] = rng.choice((0, 5, 20, 100))  # xknx.rate_limit is a public attribute: changed while the queue runs
         elif kind == "burst":
             ev["n"] = rng.randint(2, 6)
             ev["addrs"] = [rng.choice(GAS + IGAS) for _ in range(ev["n"])]
@@ -135,6 +137,11 @@ def gen_case(rng: random.Random) -> dict:
         devices.append(("switch", GAS[0], None))
         devices.append(("sensor", GAS[1], None))
         devices.append(("binary", GAS[2], None))
+    if rng.random() < 0.5:
+        # devices that put a follow-up telegram on the queue while a telegram is being processed (answer a GroupValueRead)
+        devices.append(("responder", rng.choice(GAS), None))
+        if rng.random() < 0.5:
+            devices.append(("expose", rng.choice(GAS), None))
     rng.shuffle(devices)
     callbacks = []
     for _ in range(rng.randint(1, 4)):
@@ -148,7 +155,8 @@ def gen_case(rng: random.Random) -> dict:
     ga_dpt = {}
     if rng.random() < 0.4:
         ga_dpt = {GAS[0]: rng.choice(("temperature", "switch", "percent")), GAS[3]: "2byte_unsigned", IGAS[0]: "string"}
-    return {"rate_limit": r, "events": events, "outcomes": outcomes, "devices": devices, "callbacks": callbacks, "ga_dpt": ga_dpt}
+    final_join = rng.random() < 0.5
+    return {"rate_limit": r, "final_join": final_join, "events": events, "outcomes": outcomes, "devices": devices, "callbacks": callbacks, "ga_dpt": ga_dpt}
 
 
 def _payload(kind: str, seq: int):
@@ -181,7 +189,7 @@ def execute(case: dict) -> dict:
         "restart_marks": [],  # number of hand-offs seen when a restart completed
     }
     r = case["rate_limit"]
-    bound = len(case["outcomes"]) * (4.0 + CONFIRM_TIMEOUT + (1.0 / r if r else 0.0)) + 60.0
+    bound = len(case["outcomes"]) * (4.0 + CONFIRM_TIMEOUT + 0.2) + 60.0  # 0.2 = 1/r for the smallest rate limit used
     obs["bound"] = bound
     keyof: dict[int, int] = {}  # id(payload) -> seq
     nopayload: dict[int, int] = {}  # source raw -> seq
@@ -205,10 +213,23 @@ def execute(case: dict) -> dict:
 
         xknx = make_xknx(rate_limit=r, script=script)
         obs["xknx"] = xknx
+        seq = [0]
         # done-accounting observer at the public slot xknx.telegrams: which hand-off was never followed by task_done()
         acct = obs["acct"] = []
 
         class AccountingQueue(asyncio.Queue):
+            def put_nowait(self, item) -> None:  # type: ignore[override]
+                # follow-ups that devices queue themselves (responses to reads) take part in the order / done accounting
+                if (item is not None and item.direction == TelegramDirection.OUTGOING and item.payload is not None
+                        and id(item.payload) not in keyof):
+                    seq[0] += 1
+                    keyof[id(item.payload)] = seq[0]
+                    keep.append(item)
+                    da = item.destination_address
+                    obs["queued"].append((seq[0], "out", da.raw if isinstance(da, InternalGroupAddress) else str(da)))
+                    obs["followups"] = obs.get("followups", 0) + 1
+                super().put_nowait(item)
+
             def task_done(self) -> None:  # noqa: D102
                 acct.append(("done", sys._getframe(1).f_code.co_name))  # noqa: SLF001  (diagnosis only)
                 super().task_done()
@@ -222,6 +243,12 @@ def execute(case: dict) -> dict:
         for i, (kind, a, exc) in enumerate(case["devices"]):
             if kind == "probe":
                 d = ProbeDevice(xknx, f"p{i}", [_addr(a)], raises=CB_EXC[exc] if exc else None)
+            elif kind == "responder":
+                d = Switch(xknx, f"rs{i}", group_address=a, respond_to_read=True)
+                d.switch.value = True
+            elif kind == "expose":
+                d = ExposeSensor(xknx, f"ex{i}", group_address=a, value_type="temperature")
+                d.sensor_value.value = 21.5
             elif kind == "switch":
                 d = Switch(xknx, f"sw{i}", group_address=a)
             elif kind == "sensor":
@@ -246,8 +273,6 @@ def execute(case: dict) -> dict:
                 group_addresses=None if spec["addrs"] is None else [_addr(a) for a in spec["addrs"]],
                 match_for_outgoing=spec["outgoing"],
             )
-
-        seq = [0]
 
         def emit(kind, addr, pkind):
             seq[0] += 1
@@ -290,6 +315,10 @@ def execute(case: dict) -> dict:
                 await xknx.start()
                 obs["restarts"] += 1
                 obs["restart_marks"].append(len(fake(xknx).handoffs))
+            elif kind == "rate":
+                xknx.rate_limit = ev["rate"]
+                obs["rate_changes"] = obs.get("rate_changes", 0) + 1
+                obs.setdefault("rate_events", []).append((loop.time(), ev["rate"]))
             elif kind == "con":
                 # an unsolicited / repeated L_DATA.con from the gateway (queue idle or busy)
                 if fake(xknx).confirm_last():
@@ -299,8 +328,9 @@ def execute(case: dict) -> dict:
                     emit("outi" if a.startswith("i-") else "out", a, ev["payload"])
             else:
                 emit(kind, ev["addr"], ev.get("payload", "write1"))
-        obs["stage"] = "final-join"
-        await xknx.join()
+        if case["final_join"]:
+            obs["stage"] = "final-join"
+            await xknx.join()
         obs["stage"] = "final-stop"
         await xknx.stop()
         obs["stage"] = "done"
@@ -321,7 +351,10 @@ def judge(ctx, case: dict, obs: dict, wit: dict) -> None:
     res = obs["res"]
     r = case["rate_limit"]
     if res.error is not None:
-        ctx.violation("exception-escapes-start-join-stop", dict(wit, error=res.error, stage=obs["stage"]),
+        exc_name = res.error.split(":")[0]
+        ctx.violation(f"queue-task-died-with-{exc_name}-raised-from-stop" + ("-after-rate-limit-change" if obs.get("rate_changes") else "")
+                      if obs["stage"] in ("final-stop",) or obs["stage"].endswith(":restart") else "exception-escapes-start-join-stop",
+                      dict(wit, error=res.error, stage=obs["stage"]),
                       f"{res.error} escaped the driver at stage {obs['stage']}")
         return
     iface = fake(xknx)
@@ -350,7 +383,17 @@ def judge(ctx, case: dict, obs: dict, wit: dict) -> None:
                 if nxt != "done":
                     culprit = hos[idx]
                     break
-        if culprit is not None:
+        died = None
+        ct = getattr(xknx.telegram_queue, "_consumer_task", None)
+        if ct is not None and ct.done() and not ct.cancelled() and ct.exception() is not None \
+                and not isinstance(ct.exception(), asyncio.CancelledError):  # (cancelled by the harness teardown after the stall)
+            died = type(ct.exception()).__name__
+        if died is not None:
+            # the consumer / sender task itself ended with an exception: nothing is processed any more
+            cause = f"queue-task-died-with-{died}" + ("-after-rate-limit-change" if obs.get("rate_changes") else "")
+        elif culprit is None and obs["stage"].split(":")[-1] in ("restart", "final-stop") and xknx.telegrams.qsize() > 0:
+            cause = "telegram-queued-during-stop-left-behind-the-stop-marker"
+        elif culprit is not None:
             cause = "telegram-not-marked-done-after-send-" + (culprit.raised or culprit.outcome.kind.split(":")[0])
         elif after_restart:
             cause = "after-restart-before-first-send"
@@ -445,24 +488,47 @@ def judge(ctx, case: dict, obs: dict, wit: dict) -> None:
                           f"before {release:.3f}")
         else:
             ctx.count("confirmation_order_checked")
-    if r:
-        marks = set(obs["restart_marks"])
-        for a, b in zip(hos, hos[1:]):
-            gap = b.t_start - a.t_start
-            if b.index in marks:
-                ctx.count("spacing_across_restart_recorded")
-                if gap < 1.0 / r - EPS:
-                    ctx.count("spacing_across_restart_below_1_over_r")
-                continue
-            ctx.count("spacing_checked")
-            if gap < 1.0 / r - EPS:
-                ctx.violation(
-                    "handoffs-closer-than-rate-limit" + ("-after-failed-send" if a.raised else ""),
-                    dict(wit, index=b.index, gap=gap, min_gap=1.0 / r, prev_raised=a.raised, prev_outcome=a.outcome.kind),
-                    f"hand-offs #{a.index} and #{b.index} are {gap:.6f}s apart, rate limit {r}/s demands {1.0 / r:.6f}s",
-                )
-            if abs(gap - 1.0 / r) < EPS:
-                ctx.count("spacing_exactly_1_over_r")
+    # spacing: the limiter sleep is started with the rate limit in force when a telegram is handed over and awaited before the next
+    # one if a limit is (still) in force then: both hand-offs under a limit -> at least 1/r (r at the first of the two) apart
+    marks = set(obs["restart_marks"])
+    ctx.count("rate_limit_changed_while_running", obs.get("rate_changes", 0))
+    ctx.count("followup_telegrams_queued_by_devices", obs.get("followups", 0))
+    rate_events = [(0.0, r)] + obs.get("rate_events", [])
+
+    def rates_in_force(t0, t1):
+        """Every value xknx.rate_limit had at some moment of [t0, t1]."""
+        vals = {[v for (t, v) in rate_events if t <= t0 + EPS][-1]}
+        vals.update(v for (t, v) in rate_events if t0 - EPS <= t <= t1 + EPS)
+        return vals
+
+    for n_a, (a, b) in enumerate(zip(hos, hos[1:])):
+        rb = b.rate_limit_at_start
+        # the telegram may have waited in the limiter since its predecessor went out: a change during that wait leaves it open
+        # which value its own sleep was started with -> the weakest of them is demanded (none if the limit was off meanwhile)
+        since = hos[n_a - 1].t_start if n_a else 0.0
+        cands = rates_in_force(since, a.t_start) | {a.rate_limit_at_start}
+        if not rb or 0 in cands or None in cands:
+            continue
+        ra = max(cands)
+        gap = b.t_start - a.t_start
+        changed = ra != r or rb != r
+        if b.index in marks:
+            ctx.count("spacing_across_restart_recorded")
+            if gap < 1.0 / ra - EPS:
+                ctx.count("spacing_across_restart_below_1_over_r")
+            continue
+        ctx.count("spacing_checked")
+        if changed:
+            ctx.count("spacing_checked_after_rate_limit_change")
+        if gap < 1.0 / ra - EPS:
+            ctx.violation(
+                "handoffs-closer-than-rate-limit" + ("-after-failed-send" if a.raised else "") + ("-after-rate-limit-change" if changed else ""),
+                dict(wit, index=b.index, gap=gap, min_gap=1.0 / ra, rate_at_prev=ra, rate_at_next=rb, rate_at_start=r,
+                     prev_raised=a.raised, prev_outcome=a.outcome.kind),
+                f"hand-offs #{a.index} and #{b.index} are {gap:.6f}s apart, rate limit {ra}/s in force demands {1.0 / ra:.6f}s",
+            )
+        if abs(gap - 1.0 / ra) < EPS:
+            ctx.count("spacing_exactly_1_over_r")
 
     # ---- internal telegrams: processed by devices and callbacks
     if not stalled:
@@ -528,7 +594,8 @@ def run(ctx):
                 "send_outcome_slow", "send_outcome_ok_no_con", "callback_raised", "restarts", "joins_midway",
                 "send_outcome_ok_con_after_timeout", "send_outcome_ok_duplicate_con", "unsolicited_or_repeated_cons",
                 "confirmation_order_checked", "release_by_con", "release_by_timeout", "release_by_send-failed",
-                "handoffs_preceded_by_a_stale_or_duplicate_con")
+                "handoffs_preceded_by_a_stale_or_duplicate_con", "rate_limit_changed_while_running",
+                "spacing_checked_after_rate_limit_change", "followup_telegrams_queued_by_devices")
     n = ctx.scale(2500, 160000)
     for i in range(n):
         if not ctx.mine(i):
